@@ -7,6 +7,7 @@
 //!             | hex:<bytes> | hexd:<root>|<entry>|<bytes>                  (literal entry file; minimised inputs)
 //!             | pp:<seed> | ppmut:<seed>      (preprocessor grammar: entry file + in-memory headers + its own API defines)
 //!             | syn:<seed> | synmut:<seed> | synone:<k>   (syntax-category generator, see c08_syn.rs)
+//!             | props:<seed> | propone:<k>   (property blocks / attributes / redefinitions, see c08_props.rs)
 //!             | hexm:<entry>|<hex>|<name>|<hex>|...                        (literal multi-file input)
 //! observe : ok:<pipelines>:<output bytes> | err:<first line of the diagnostic> | panic:<site> | died:<signal> | timeout
 //! oracle  : (the property's own) the worker process survives, `compile` returns, an `Err` renders to a non-empty
@@ -14,6 +15,7 @@
 //!
 //! request : C08.lex \t <hex bytes> \t <raw token lengths, `e` suffix = Endline>   (model diff: TokenStream bookkeeping)
 //! request : C08.defscan | C08.textscan \t <definition tokens> \t <condition / text tokens> \t <scenario hex>   (model diff: macro scan)
+//! request : C08.pipeprops \t <g|c|s> \t <name@column,...>      (model diff: duplicate-property check + state loop of parse_pipeline / parse_static_sampler)
 //! request : C08.cond \t <directive letters, `(`..`)` = an included file>           (model diff: ConditionChain)
 //!
 //! Process structure: the supervisor (this process) writes request batches to files and spawns worker
@@ -1118,6 +1120,68 @@ fn cond_case(letters: &str, out: &mut Out, hist: &mut Hist) {
     out.case(&format!("C08.cond\t{}", letters), &obs, &oracle);
 }
 
+/// C08.pipeprops: a Pipeline (`g` graphics, `c` compute) or StaticSampler (`s`) block whose properties all carry valid
+/// values; the real `compile` is classified as `dup:<column>` (PipelinePropertyDuplicate), `other:<column>` (another
+/// diagnostic located on the block's line), `done` (compiled) or `panic:<property>` and compared with the model of the
+/// duplicate check + state loop (`Model/PipelineProps.lean`).
+fn pipeprops_case(kind: &str, names: &[String], out: &mut Out, hist: &mut Hist) {
+    let (text, cols) = pipeprops_text(kind, names);
+    let props = if names.is_empty() { "-".to_string() } else { names.iter().zip(&cols).map(|(n, c)| format!("{}@{}", n, c)).collect::<Vec<_>>().join(",") };
+    let req = format!("C08.pipeprops\t{}\t{}", kind, props);
+    if names.iter().any(|n| n.is_empty() || n.contains(|c: char| !c.is_ascii_alphanumeric() && c != '_')) {
+        out.case(&req, "bad-request", "SKIP:a property name is not an identifier");
+        return;
+    }
+    let r = guard(|| {
+        let mut inc = MemFiles(vec![("main.rssl".to_string(), text.clone())]);
+        let args = rssl::CompileArgs::new("main.rssl", &mut inc, rssl::Target::HlslForVulkan);
+        match rssl::compile(args) {
+            Ok(_) => "done".to_string(),
+            Err(e) => {
+                let msg = format!("{}", e);
+                let first = msg.lines().next().unwrap_or("").to_string();
+                if first.trim().is_empty() {
+                    return "err:empty-diagnostic".to_string();
+                }
+                // main.rssl:<line>:<column>: error: <message>
+                let mut it = first.splitn(4, ':');
+                let (_f, line, col, rest) = (it.next(), it.next().and_then(|x| x.trim().parse::<usize>().ok()), it.next().and_then(|x| x.trim().parse::<usize>().ok()), it.next().unwrap_or(""));
+                match (line, col) {
+                    (Some(2), Some(c)) if rest.contains("property declared multiple times") => format!("dup:{}", c),
+                    (Some(2), Some(c)) => format!("other:{}", c),
+                    _ => format!("err:{}", first.chars().take(100).collect::<String>()),
+                }
+            }
+        }
+    });
+    let (obs, oracle) = match r {
+        // the property's own words: compile returns pipelines or a rendered (non-empty) diagnostic
+        Ok(o) if o == "err:empty-diagnostic" => (o, "FAIL:the error renders to an empty string".to_string()),
+        Ok(o) => (o, "ok".to_string()),
+        Err(p) => {
+            let which = if p.contains("!cull_mode_set") { "CullMode" } else if p.contains("!winding_order_set") { "WindingOrder" } else if p.contains("depth_target_format.is_none()") { "DepthTargetFormat" }
+                else if p.contains("render_target_formats[index].is_none()") { "RenderTargetFormat" } else { "?" };
+            (format!("panic:{}", which), format!("FAIL:panic {}", p))
+        }
+    };
+    hist.add(&format!("pipeprops={}/{}", kind, obs.split(':').next().unwrap_or("")));
+    let mut sorted: Vec<&String> = names.iter().collect();
+    sorted.sort();
+    if sorted.windows(2).any(|w| w[0] == w[1]) {
+        hist.add("pipeprops-with-repeat");
+    }
+    hist.add(&format!("pipeprops-len={}", names.len().min(12)));
+    out.case(&req, &obs, &oracle);
+}
+
+fn pipeprops_request(rest: &str) -> Option<(String, Vec<String>)> {
+    let mut f = rest.split('\t');
+    let kind = f.next()?.to_string();
+    let props = f.next()?;
+    let names = if props == "-" || props.is_empty() { Vec::new() } else { props.split(',').map(|p| p.split('@').next().unwrap_or("").to_string()).collect() };
+    Some((kind, names))
+}
+
 /// C08.defscan: definitions (in a header, in the entry file or as API defines) + one `#if` line; the real
 /// `preprocess` is compared with the model of `Macro::parse` + `apply_macros(.., true)` with locations
 /// (`Model/DefinedLoc.lean`).  The request carries the *real lexer's* tokens of every definition and of the
@@ -1335,6 +1399,10 @@ pub fn run(args: &Args, out: &mut Out) {
                 }
             } else if let Some(rest) = line.strip_prefix("C08.cond\t") {
                 cond_case(rest, out, &mut hist);
+            } else if let Some(rest) = line.strip_prefix("C08.pipeprops\t") {
+                if let Some((kind, names)) = pipeprops_request(rest) {
+                    pipeprops_case(&kind, &names, out, &mut hist);
+                }
             } else if let Some(rest) = line.strip_prefix("C08.defscan\t").or_else(|| line.strip_prefix("C08.textscan\t")) {
                 if let Some(spec) = rest.split('\t').nth(2) {
                     defscan_case(spec, out, &mut hist);
@@ -1350,7 +1418,7 @@ pub fn run(args: &Args, out: &mut Out) {
         let n = args.n.unwrap_or(20000);
         let mut bad = 0;
         for seed in 0..n {
-            for kind in ["pp", "ppmut", "syn", "synmut", "cx", "gram", "gmut", "feat", "toks", "rep", "bytes", "prog", "pmut"] {
+            for kind in ["pp", "ppmut", "syn", "synmut", "props", "cx", "gram", "gmut", "feat", "toks", "rep", "bytes", "prog", "pmut"] {
                 let r = guard(|| materialise(&format!("{}:{}", kind, seed)).map(|m| m.bytes.len()));
                 if let Err(p) = r {
                     bad += 1;
@@ -1382,6 +1450,17 @@ pub fn run(args: &Args, out: &mut Out) {
                     println!("C08.compile\t{}\tall\t1\t-\thex:{}", tgt.name(), hex(text.as_bytes()));
                 }
             }
+        }
+        return;
+    }
+    if args.extra.iter().any(|e| e == "propsprobe") {
+        // one request per variant of the property / attribute / redefinition sweep (development aid)
+        for (k, (cat, _)) in props_variants().iter().enumerate() {
+            if std::env::var("SYNPROBE_NAMES").is_ok() {
+                println!("{}\t{}", k, cat);
+                continue;
+            }
+            println!("C08.compile\tvk\tall\t1\t-\tpropone:{}", k);
         }
         return;
     }
@@ -1423,6 +1502,18 @@ pub fn run(args: &Args, out: &mut Out) {
     for _ in 0..(600 * scale.min(10)) {
         let spec = gen_defscan(&mut rng);
         defscan_case(&hex(spec.as_bytes()), out, &mut hist);
+    }
+
+    // property blocks with a model prediction (their own random stream, so that the plan below does not depend on them)
+    {
+        let mut prng = Rng::new(args.seed ^ 0x7069_7065);
+        for (kind, names) in pipeprops_fixed() {
+            pipeprops_case(&kind, &names, out, &mut hist);
+        }
+        for _ in 0..(400 * scale.min(10)) {
+            let (kind, names) = gen_pipeprops(&mut prng);
+            pipeprops_case(&kind, &names, out, &mut hist);
+        }
     }
 
     // ---- the property's own oracle: compile under supervision
@@ -1504,7 +1595,7 @@ pub fn run(args: &Args, out: &mut Out) {
                 }
             }
         }
-        for k in ["toks", "rep", "gram", "gmut", "feat", "prog", "pmut", "syn", "synmut", "pp", "ppmut"] {
+        for k in ["toks", "rep", "gram", "gmut", "feat", "prog", "pmut", "syn", "synmut", "props", "propone", "pp", "ppmut"] {
             for (c, _) in SYN_NEEDLES {
                 hist.0.entry(format!("det/{}/{}", k, c)).or_insert(0);
             }
